@@ -2149,6 +2149,7 @@ int bufr_estimate_seq_length( BUFR_Sequence *seq, BUFR_Tables *tbls )
    int       last_desc=0, last_nbits=0;
    int       f, x, y;
    int       rep_desc=0, rep_cnt=0;
+   int       dly_next=0, dly_x=0, dly_desc=0, dly_cnt=0;
    char      errmsg[1024];
 
    nbits = 0;
@@ -2164,6 +2165,38 @@ int bufr_estimate_seq_length( BUFR_Sequence *seq, BUFR_Tables *tbls )
                   cb->descriptor , cb->flags, rep_desc, rep_cnt );
       bufr_print_debug( errmsg );
 #endif
+/*
+ * this estimate guards against messages too short for the replication factors they claim,
+ * so it must never exceed what the data section really has to hold: descriptors flagged as 
+ * skipped take no bits, and neither do those governed by a delayed replication whose factor
+ * is zero or not known yet
+ */
+      if (dly_desc > 0)
+         {
+         dly_desc -= 1;
+         if (dly_cnt <= 0) 
+            {
+            node = node->next;
+            continue;
+            }
+         }
+      if (cb->flags & FLAG_SKIPPED)
+         {
+         node = node->next;
+         continue;
+         }
+      if (dly_next && (f == 0)&&(x == 31))
+         {
+         dly_next = 0;
+         dly_cnt = bufr_value_get_int32( cb->value );
+         dly_desc = dly_x;
+         }
+      else if ((f == 1)&&(y == 0))
+         {
+         dly_next = 1;
+         dly_x = x;
+         }
+
       if (cb->encoding.af_nbits > 0)
          {
          nbits += cb->encoding.af_nbits;
